@@ -303,6 +303,10 @@ class TreeRun:
             cfg["input"]["auto_exclude_directories_without_cmake"] = False
         if c.get("follow"):
             cfg["input"]["follow_symlinks"] = True
+        for k in ("function_parameter_name_strip_regex", "macro_parameter_name_strip_regex",
+                  "member_parameter_name_strip_regex", "kwargs_doc_trigger_string"):
+            if c.get(k) is not None:          # implementation-only stages (the model request ignores them)
+                cfg["input"][k] = c[k]
         if c["patterns_cfg"]:
             cfg["input"]["exclude_filters"] = list(c["patterns_cfg"])
         for k, v in c["flags"].items():
